@@ -2,6 +2,7 @@ import BFL.Proofs.RaceTable
 import BFL.Proofs.RacePhase
 import BFL.Proofs.RaceScoped
 import BFL.Proofs.RaceObject
+import BFL.Proofs.RaceConfine
 /-
 C10 — the control interface may be used from another thread without data races.
 
@@ -144,45 +145,34 @@ theorem controller_free_no_access (T : Table) (f : Nat) (h : ControllerFree T f)
     tr ≠ pre ++ Ev.acc .controller (o, f) w s :: post :=
   BFL.Race.controller_free_no_access T f h hc pre post o w s
 
-/-- **must hold — evaluated on the regenerated table**: the three pseudo-members standing for the state of
-    the user's measurement model (`freeze`, `measure`, `predictedMeasure`, `innovation`), likelihood model
-    (`likelihood`) and particle initialisation (`initialize`) exist, are written by the filtering role, and
-    no function reachable from a control command (`run` … `skip`) has a row for them. -/
-theorem table_model_confined :
-    table.modelConfinedIn (reachClaim .controller) (reachClaim .filter) = true :=
-  model_confined_cert
-
-/-- Consequence: no control command makes the controller thread call into the user's measurement model,
-    likelihood model or particle initialisation — in no conforming interleaving does the controller
-    access their state (in particular `skip("correction", …)` never reaches `freeze()`). -/
-theorem model_confined (f : Nat) (hf : f ∈ table.fieldIds modelStateFields) {tr : List Ev}
-    (hc : Conforms table tr) (pre post : List Ev) (o : Obj) (w s : Bool) :
+/-- For every table and every certified controller reach set: if the model-state pseudo-members are
+    *confined* (`modelConfinedIn`: they exist, the filtering role writes them, no controller-reachable
+    function has a row for them), the controller thread never accesses them in a conforming interleaving —
+    no control command calls into the user's measurement model, likelihood model or particle initialisation.
+    Confinement is **stronger than the property** (a command may legitimately call `freeze()` under a mutex the
+    filtering thread also takes): whether the current table is confined is *not* an obligation; it is evaluated
+    in `BFL/Props/C10Confine.lean`, built separately, and only recorded in the evidence (`confinement_lost`).
+    What decides is the lockset discipline over the pseudo-members (`table_disciplined`, `race_free`). -/
+theorem model_confined (T : Table) (SC SF : Nat) (hC : ReachCert T .controller SC)
+    (h : T.modelConfinedIn SC SF = true) (f : Nat) (hf : f ∈ T.fieldIds modelStateFields) {tr : List Ev}
+    (hc : Conforms T tr) (pre post : List Ev) (o : Obj) (w s : Bool) :
     tr ≠ pre ++ Ev.acc .controller (o, f) w s :: post := by
-  have h := model_confined_cert
   unfold Table.modelConfinedIn at h
   simp only [Bool.and_eq_true, List.all_eq_true] at h
-  exact BFL.Race.controller_free_no_access table f
-    (controllerFree_of_cert cert_controller f (h.2 f hf).1) hc pre post o w s
+  exact BFL.Race.controller_free_no_access T f
+    (controllerFree_of_cert hC f (h.2 f hf).1) hc pre post o w s
 
-/-- **must hold — evaluated on the regenerated table**: the hooks of the user's filter — the pure virtual
-    `initialization_step`, `filtering_step`, `run_condition` of `FilteringAlgorithm`, their overriders in the
-    library (`SIS`), and `Logger::log` — are invoked by the filtering role and by no function reachable from a
-    control or query command. -/
-theorem table_hooks_confined :
-    table.confinedIn hookStateFields (reachClaim .controller) (reachClaim .filter) = true :=
-  hooks_confined_cert
-
-/-- Consequence: in no conforming interleaving does the controller thread touch the state behind the hooks
-    (`GaussianFilter` / `ParticleFilter` / `SIS` subclasses' `initialization_step`, `filtering_step`,
-    `run_condition`, `log`): commands only set flags, they never run the filter's code. -/
-theorem hooks_confined (f : Nat) (hf : f ∈ table.fieldIds hookStateFields) {tr : List Ev}
-    (hc : Conforms table tr) (pre post : List Ev) (o : Obj) (w s : Bool) :
+/-- The same for the hooks of the user's filter (`initialization_step`, `filtering_step`, `run_condition`,
+    `log` and their overriders): for every table in which `user::hook_state` is confined, the controller
+    thread never touches the state behind the hooks. -/
+theorem hooks_confined (T : Table) (SC SF : Nat) (hC : ReachCert T .controller SC)
+    (h : T.confinedIn hookStateFields SC SF = true) (f : Nat) (hf : f ∈ T.fieldIds hookStateFields) {tr : List Ev}
+    (hc : Conforms T tr) (pre post : List Ev) (o : Obj) (w s : Bool) :
     tr ≠ pre ++ Ev.acc .controller (o, f) w s :: post := by
-  have h := hooks_confined_cert
   unfold Table.confinedIn at h
   simp only [Bool.and_eq_true, List.all_eq_true] at h
-  exact BFL.Race.controller_free_no_access table f
-    (controllerFree_of_cert cert_controller f (h.2 f hf).1) hc pre post o w s
+  exact BFL.Race.controller_free_no_access T f
+    (controllerFree_of_cert hC f (h.2 f hf).1) hc pre post o w s
 
 /-- **must hold — the join is certified from the table**: the filtering thread performs no operation on
     a thread handle; the controller spawns only in `boot()`, joins only in `wait()`, and otherwise only
